@@ -3,6 +3,8 @@
 //! They (a) verify limb-level functions of /repo that the Verus prelude stubs at their arithmetic meaning and
 //! (b) give an independent second proof of the cheapest instructions.
 #![allow(dead_code, unused_imports)]
+#[path = "/repo/actors/evm/src/interpreter/instructions/arithmetic.rs"]
+mod arithmetic;
 #[path = "/repo/actors/evm/src/interpreter/instructions/bitwise.rs"]
 mod bitwise;
 #[path = "/repo/actors/evm/src/interpreter/instructions/boolean.rs"]
@@ -145,5 +147,24 @@ mod proofs {
             None => assert!(!a.is_id()),
         }
         assert!(!(a.is_id() && a.is_null()));
+    }
+
+    // ---- SIGNEXTEND (arithmetic.rs): Yellow Paper — for a < 32, every bit above bit t = 8a+7 becomes a copy of bit t; else b unchanged ----
+    fn bit_of(x: &U256, i: usize) -> bool { (x.0[i / 64] >> (i % 64)) & 1 == 1 }
+    #[kani::proof]
+    #[kani::unwind(5)]
+    fn signextend_spec() {
+        let a = any_u256();
+        let b = any_u256();
+        let r = arithmetic::signextend(a, b);
+        let i: usize = kani::any();
+        kani::assume(i < 256);
+        if a.0[1] == 0 && a.0[2] == 0 && a.0[3] == 0 && a.0[0] < 32 {
+            let t = 8 * (a.0[0] as usize) + 7;
+            let want = if i <= t { bit_of(&b, i) } else { bit_of(&b, t) };
+            assert!(bit_of(&r, i) == want);
+        } else {
+            assert!(bit_of(&r, i) == bit_of(&b, i));
+        }
     }
 }
